@@ -252,11 +252,50 @@ Section Lex.
       destruct locs as [|l locs]; [reflexivity|]. rewrite IH. apply globs_add_loc_var.
     Qed.
 
+    Lemma local_adds_globs : forall es names locs rs s s' rn rl flag,
+        local_adds names locs es rs s = (s', rn, rl, flag) -> globs s' = globs s.
+    Proof.
+      induction es as [|e es IH]; intros names locs rs s s' rn rl flag H; cbn [local_adds] in H.
+      - injection H as <- <- <- <-. reflexivity.
+      - destruct rs as [|[ofn sub] rs']; [injection H as <- <- <- <-; reflexivity|].
+        destruct names as [|k names]; [injection H as <- <- <- <-; reflexivity|].
+        destruct locs as [|l locs]; [injection H as <- <- <- <-; reflexivity|].
+        destruct (local_adds names locs es rs' _) as [[[s3 rn0] rl0] flag0] eqn:E. injection H as <- <- <- <-.
+        rewrite (IH _ _ _ _ _ _ _ _ E). apply globs_add_loc_var.
+    Qed.
+
+    Lemma local_eval_M : forall es names locs s s1 rs,
+        forallb shp_exp es = true -> local_eval ce names locs es s = Ok (s1, rs) -> M s -> M s1.
+    Proof.
+      intros es names locs s s1 rs Hes H. eapply post_any_M.
+      eapply (local_eval_post any_name any_target ce Hg); [exact Hes | apply pre_any | exact H].
+    Qed.
+
     Lemma local_loop_M : forall es names locs s s' rn rl flag,
         forallb shp_exp es = true -> local_loop ce names locs es s = Ok (s', rn, rl, flag) -> M s -> M s'.
     Proof.
-      intros es names locs s s' rn rl flag Hes H. eapply post_any_M.
-      eapply (local_loop_post any_name any_target ce Hg); [apply forallb_any | exact Hes | apply pre_any | exact H].
+      intros es names locs s s' rn rl flag Hes H HM. unfold local_loop in H. inv_bind H. destruct a as [s1 rs].
+      injection H as H. unfold M. rewrite (local_adds_globs _ _ _ _ _ _ _ _ _ H). eapply local_eval_M; eauto.
+    Qed.
+
+    (* since fixes/C07-multi-local-order.diff every initialiser is analysed before a name of the statement is added:
+       an assignment to the global nm in ANY of them is seen (no condition on the names of the statement) *)
+    Lemma local_eval_u : forall es names locs s s1 rs,
+        forallb shp_exp es = true -> Kn s ->
+        local_eval ce names locs es s = Ok (s1, rs) ->
+        asgU_upto (length (combine names locs)) es = true -> M s1.
+    Proof.
+      induction es as [|e es IH]; intros names locs s s1 rs Hes HK H Ha; [discriminate|].
+      cbn [forallb] in Hes. apply andb_prop in Hes. destruct Hes as [He Hes].
+      cbn [local_eval] in H. inv_bind H. destruct a as [[s2 ofn] sub].
+      destruct names as [|k names].
+      { injection H as <- <-. cbn in Ha. rewrite orb_false_r in Ha. eapply Hu; eauto. }
+      destruct locs as [|l locs].
+      { injection H as <- <-. cbn in Ha. rewrite orb_false_r in Ha. eapply Hu; eauto. }
+      inv_bind H. destruct a as [s3 rs0]. injection H as <- <-.
+      cbn [combine length asgU_upto] in Ha. apply orb_prop in Ha. destruct Ha as [Ha|Ha].
+      - eapply local_eval_M; [exact Hes | exact Hb0 |]. eapply Hu; eauto.
+      - eapply IH; [exact Hes | | exact Hb0 | exact Ha]. eapply ceK; eauto.
     Qed.
 
     Lemma local_loop_u : forall es names locs s s' rn rl flag,
@@ -264,19 +303,8 @@ Section Lex.
         local_loop ce names locs es s = Ok (s', rn, rl, flag) ->
         asgU_upto (length (combine names locs)) es = true -> M s'.
     Proof.
-      induction es as [|e es IH]; intros names locs s s' rn rl flag Hn Hes HK H Ha; [discriminate|].
-      cbn [forallb] in Hes. apply andb_prop in Hes. destruct Hes as [He Hes].
-      destruct names as [|k names]; cbn [local_loop] in H.
-      - inv_bind H. destruct a as [[s1 ofn] sub]. injection H as <- <- <- <-.
-        cbn in Ha. rewrite orb_false_r in Ha. eapply Hu; eauto.
-      - inv_bind H. destruct a as [[s1 ofn] sub]. destruct locs as [|l locs].
-        + injection H as <- <- <- <-. cbn in Ha. rewrite orb_false_r in Ha. eapply Hu; eauto.
-        + inv_bind H. destruct a as [[[s3 rn0] rl0] flag0]. injection H as <- <- <- <-.
-          cbn [has_nm existsb] in Hn. apply orb_false_elim in Hn. destruct Hn as [Hk Hn].
-          cbn [combine length asgU_upto] in Ha. apply orb_prop in Ha. destruct Ha as [Ha|Ha].
-          * eapply local_loop_M; [exact Hes | exact Hb0 |]. unfold M. rewrite globs_add_loc_var. eapply Hu; eauto.
-          * eapply IH; [exact Hn | exact Hes | | exact Hb0 | exact Ha].
-            apply add_loc_var_K; [apply not_named_other; exact Hk | eapply ceK; eauto].
+      intros es names locs s s' rn rl flag _ Hes HK H Ha. unfold local_loop in H. inv_bind H. destruct a as [s1 rs].
+      injection H as H. unfold M. rewrite (local_adds_globs _ _ _ _ _ _ _ _ _ H). eapply local_eval_u; eauto.
     Qed.
 
     Lemma cg_local_u : forall names locs es s s',
@@ -286,15 +314,10 @@ Section Lex.
     Proof.
       intros names locs es s s' Hes HK H Ha. unfold cg_local in H. inv_bind H. destruct a as [[[s1 rn] rl] flag].
       ok_inj H. unfold M. rewrite globs_add_plain. fold (M s1).
-      destruct (has_nm names) eqn:En.
-      - destruct es as [|e0 es]; [discriminate|]. cbn [forallb] in Hes. apply andb_prop in Hes. destruct Hes as [He Hes].
-        destruct names as [|k names]; cbn [local_loop] in Hb.
-        + inv_bind Hb. destruct a as [[s2 ofn] sub]. injection Hb as <- <- <- <-. eapply Hu; eauto.
-        + inv_bind Hb. destruct a as [[s2 ofn] sub]. destruct locs as [|l locs].
-          * injection Hb as <- <- <- <-. eapply Hu; eauto.
-          * inv_bind Hb. destruct a as [[[s3 rn0] rl0] flag0]. injection Hb as <- <- <- <-.
-            eapply local_loop_M; [exact Hes | exact Hb1 |]. unfold M. rewrite globs_add_loc_var. eapply Hu; eauto.
-      - eapply local_loop_u; eauto.
+      unfold local_loop in Hb. inv_bind Hb. destruct a as [s2 rs]. injection Hb as Hb.
+      unfold M. rewrite (local_adds_globs _ _ _ _ _ _ _ _ _ Hb). eapply local_eval_u; eauto.
+      destruct (has_nm names); [|exact Ha].
+      destruct es as [|e0 es]; [discriminate|]. cbn [asgU_upto]. rewrite Ha. reflexivity.
     Qed.
 
     Lemma M_update_var : forall r f s, M s -> M (update_var r f s).
@@ -659,7 +682,7 @@ Section Lex.
           eapply (scoped_T _ _ _ (asgU_exp init || asgU_exp limit || asgU_exp step || (if beq_bytes nm name then false else asgU_block b)));
             [|exact H|exact HK|exact Ha].
           intros s0 s1 H0. inv_bind H0. inv_bind H0. inv_bind H0.
-          pose proof (T_seq _ _ _ _ _ (T_seq _ _ _ _ _ (Tnil _ _ _ _ _ He1 Hb) (Tnil _ _ _ _ _ He3 Hb0)) (Tnil _ _ _ _ _ He2 Hb1))
+          pose proof (T_seq _ _ _ _ _ (T_seq _ _ _ _ _ (Tnil _ _ _ _ _ He1 Hb) (Tnil _ _ _ _ _ He2 Hb0)) (Tnil _ _ _ _ _ He3 Hb1))
             as [K3 [M3 U3]].
           destruct (Tb1 _ _ _ Hblk H0) as [TL [M4 U4]]. split; [|split].
           -- eapply tl_eq_trans; [exact TL|]. rewrite esig_add_loc_var. eapply tl_eq_trans; [apply esig_adds_tl_eq|].
@@ -670,7 +693,7 @@ Section Lex.
              destruct (proj1 (all_sig n) _ _ _ _ _ _ _ _ Hb1) as [X2 _]. congruence.
           -- intros HM. apply M4. unfold M. rewrite globs_add_loc_var. apply M3, HM.
           -- intros HK0 Ha0.
-             destruct (asgU_exp init || asgU_exp step || asgU_exp limit) eqn:E3.
+             destruct (asgU_exp init || asgU_exp limit || asgU_exp step) eqn:E3.
              ++ apply M4. unfold M. rewrite globs_add_loc_var. apply U3; [exact HK0 | reflexivity].
              ++ destruct (beq_bytes nm name) eqn:En; [cbv beta in *; lia|].
                 apply U4; [|cbv beta in *; lia]. apply add_loc_var_K; [apply not_named_other; exact En | apply K3; exact HK0].
